@@ -543,7 +543,11 @@ class H2Protocol:
             event = _SyntheticRequest(stream_id=push_stream_id, headers=request_headers)
             await self._create_stream(event)
             await self.streams[event.stream_id].handle(EndBody(stream_id=event.stream_id))
-            self.keep_alive_requests += 1
+            # Counted in _create_stream, but a push is not one of the
+            # requests the client may make on this connection (and with
+            # it counted the limit would be passed without the client
+            # ever being told).
+            self.keep_alive_requests -= 1
 
     async def _close_stream(self, stream_id: int) -> None:
         if stream_id in self.streams:
